@@ -392,7 +392,7 @@ def prov_node_attributes(repo, tier="quick"):
             ok = False
             if isinstance(attr_e, ast.Name):
                 ds = [d for d in fl.reaching(attr_e.id, n.id) if d.kind != "unbound"]
-                ok = bool(ds) and all(d.kind == "assign" and d.ast is cfg.nodes[pnode].ast for d in ds)
+                ok = bool(ds) and all(d.kind == "assign" and not d.path and fl.canon(d.value, d.node) == P for d in ds)
             (obs.append(ob_ok(oid, fi, n.ast, construct="anchor recipe entry carries the anchor node's parsed attributes", instance="recipe-anchor",
                               reason="copies of the anchor made by a branch multiplier keep its annotations")) if ok else
              obs.append(ob_fail(oid, fi, n.ast, construct="anchor recipe entry attributes = %s" % show(t), instance="recipe-anchor",
